@@ -14,7 +14,10 @@ use iggy::models::stats::Stats;
 use iggy::models::user_info::UserId;
 use iggy::utils::byte_size::IggyByteSize;
 use iggy::utils::sizeable::Sizeable;
+#[cfg(not(kani))]
 use tokio::sync::RwLock;
+#[cfg(kani)]
+use iggy::verif_model::lock::RwLock;
 
 pub fn map_stats(stats: &Stats) -> Bytes {
     let mut bytes = BytesMut::with_capacity(104);
